@@ -1,32 +1,52 @@
 //! C12-L1 / C13 for the ABI canonical CBOR value codec (`echo_wasm_abi::canonical`).
 //!
-//! Same scheme as `c12_edict`: the head byte of each item is concrete inside each unrolled
-//! loop iteration, the argument/payload bytes and the total length are symbolic; the union of
-//! the loops covers every head byte.
+//! Same scheme as `c12_edict`: every case fixes the head byte and the total length concretely,
+//! the argument/payload bytes are symbolic.
 use crate::kani;
 use echo_wasm_abi::{decode_value, encode_value};
 
 pub const N: usize = 10;
 
+/// Re-encodes `v` and compares with the input. Always called with a value whose variant is
+/// *syntactically concrete* at the call site (see `l1`), so the encoder follows one arm.
+#[inline(always)]
+fn reencodes_to(v: ciborium::value::Value, buf: &[u8; N], len: usize) {
+    match encode_value(&v) {
+        Ok(out) => {
+            assert!(out.len() == len, "ABI CBOR: accepted input re-encodes to a different length");
+            let mut flat = [0u8; N];
+            flat[..len].copy_from_slice(&out);
+            let mut i = 0;
+            while i < N {
+                if i < len { assert!(flat[i] == buf[i], "ABI CBOR: accepted input re-encodes to different bytes"); }
+                i += 1;
+            }
+            core::mem::forget(out);
+        }
+        Err(e) => { core::mem::forget(e); assert!(false, "ABI CBOR: accepted input does not re-encode"); }
+    }
+    core::mem::forget(v);
+}
+
 /// accepted => canonical: any accepted byte string re-encodes to exactly itself.
 /// Kani's own checks (panic, bounds, overflow, unwinding) over the same run are C13.
+///
+/// After the decoder's early-return paths merge, the discriminant of its result is a symbolic
+/// `ite` over an uninitialised payload; handing that value to the encoder makes CBMC execute
+/// every encoder arm (incl. the map arm's sort over a nondeterministic vector). Each leaf
+/// variant is therefore re-materialised *inside its own match arm* and encoded there.
+/// Containers are handled by the dedicated harnesses below, not here.
 #[inline(never)]
 fn l1(buf: &[u8; N], len: usize) {
+    use ciborium::value::Value;
     match decode_value(&buf[..len]) {
         Ok(v) => {
-            match encode_value(&v) {
-                Ok(out) => {
-                    assert!(out.len() == len, "ABI CBOR: accepted input re-encodes to a different length");
-                    let mut flat = [0u8; N];
-                    flat[..len].copy_from_slice(&out);
-                    let mut i = 0;
-                    while i < N {
-                        if i < len { assert!(flat[i] == buf[i], "ABI CBOR: accepted input re-encodes to different bytes"); }
-                        i += 1;
-                    }
-                    core::mem::forget(out);
-                }
-                Err(e) => { core::mem::forget(e); assert!(false, "ABI CBOR: accepted input does not re-encode"); }
+            match &v {
+                Value::Integer(i) => reencodes_to(Value::Integer(*i), buf, len),
+                Value::Bool(b) => reencodes_to(Value::Bool(*b), buf, len),
+                Value::Null => reencodes_to(Value::Null, buf, len),
+                Value::Bytes(b) => reencodes_to(Value::Bytes(b.clone()), buf, len),
+                _ => assert!(false, "ABI CBOR: leaf head decoded to a float/text/container value"),
             }
             core::mem::forget(v);
         }
@@ -34,77 +54,229 @@ fn l1(buf: &[u8; N], len: usize) {
     }
 }
 
-#[inline(always)]
-fn heads(lo: u16, hi: u16, len_lo: usize, len_hi: usize) {
-    let mut buf: [u8; N] = kani::any();
-    let len: usize = kani::any();
-    kani::assume(len >= len_lo && len <= len_hi);
-    let mut h = lo;
-    while h <= hi {
-        buf[0] = h as u8;
-        l1(&buf, len);
-        h += 1;
+/// Same for the float heads.
+#[inline(never)]
+fn l1_float(buf: &[u8; N], len: usize) {
+    use ciborium::value::Value;
+    match decode_value(&buf[..len]) {
+        Ok(v) => {
+            match &v {
+                Value::Float(f) => reencodes_to(Value::Float(*f), buf, len),
+                _ => assert!(false, "ABI CBOR: float head decoded to a non-float value"),
+            }
+            core::mem::forget(v);
+        }
+        Err(e) => core::mem::forget(e),
     }
 }
 
-//@ also=C13 tier=quick timeout=1500 mem=10 bits=80 unwind=12 unwindset="c12_abi::heads=34;memcmp=12" fns=echo_wasm_abi::canonical::decode_value,dec_value,read_len,read_uint,echo_wasm_abi::canonical::encode_value,enc_int,write_major
-//@ bounds="every byte string of length 1..=10 whose first byte is a major-0 head (0x00..=0x1f)"
-//@ desc="ABI unsigned ints: non-minimal widths, reserved and indefinite info rejected; accepted => re-encodes to itself; nothing panics"
-proof! {
-    #[cfg_attr(kani, kani::stub(alloc::fmt::format, crate::stubs::fmt_format))]
-    fn c12_abi_uint_heads() { heads(0x00, 0x1f, 1, N); reach!(); }
+/// One-element arrays whose element is an integer, null or an empty array.
+#[inline(never)]
+fn l1_array1(buf: &[u8; N], len: usize) {
+    use ciborium::value::Value;
+    match decode_value(&buf[..len]) {
+        Ok(v) => {
+            match &v {
+                Value::Array(items) => {
+                    assert!(items.len() == 1, "ABI CBOR: 0x81 decoded to an array that is not one element long");
+                    match &items[0] {
+                        Value::Integer(i) => reencodes_to(Value::Array(vec![Value::Integer(*i)]), buf, len),
+                        Value::Null => reencodes_to(Value::Array(vec![Value::Null]), buf, len),
+                        Value::Array(inner) => { assert!(inner.is_empty()); reencodes_to(Value::Array(vec![Value::Array(Vec::new())]), buf, len) }
+                        _ => assert!(false, "ABI CBOR: unexpected element kind"),
+                    }
+                }
+                _ => assert!(false, "ABI CBOR: array head decoded to a non-array value"),
+            }
+            core::mem::forget(v);
+        }
+        Err(e) => core::mem::forget(e),
+    }
 }
 
-//@ also=C13 tier=quick timeout=1500 mem=10 bits=80 unwind=12 unwindset="c12_abi::heads=34;memcmp=12" fns=echo_wasm_abi::canonical::decode_value,dec_value,read_len,enc_int,write_major
-//@ bounds="every byte string of length 1..=10 whose first byte is a major-1 head (0x20..=0x3f)"
-//@ desc="ABI negative ints: accepted => canonical; magnitudes beyond i64 are rejected with a typed error, not wrapped"
-proof! {
-    #[cfg_attr(kani, kani::stub(alloc::fmt::format, crate::stubs::fmt_format))]
-    fn c12_abi_nint_heads() { heads(0x20, 0x3f, 1, N); reach!(); }
+/// One case: concrete head byte and concrete total length, every other byte symbolic.
+#[inline(always)]
+fn l1_at(head: u8, len: usize) {
+    let mut buf: [u8; N] = kani::any();
+    buf[0] = head;
+    l1(&buf, len);
 }
 
-//@ also=C13 tier=quick timeout=1500 mem=10 bits=80 unwind=12 unwindset="c12_abi::heads=34;memcmp=12" fns=echo_wasm_abi::canonical::decode_value,dec_value
-//@ bounds="every byte string of length 1..=10 whose first byte is a tag head (0xc0..=0xdf) or a simple-value head other than the three float heads (0xe0..=0xf8, 0xfc..=0xff)"
-//@ desc="ABI tags and unsupported simple values are rejected; false/true/null accepted only as exactly one byte"
+//@ also=C13 tier=quick timeout=1800 mem=10 bits=72 unwind=12 unwindset="memcmp=12;from_utf8=12;run_utf8_validation=12" fns=echo_wasm_abi::canonical::decode_value,dec_value,read_len,read_uint,echo_wasm_abi::canonical::encode_value,enc_int,write_major
+//@ bounds="unsigned immediates 0x00 and 0x17: exact and with one trailing byte"
+//@ desc="ABI CBOR: immediate unsigned ints are one byte; a trailing byte is rejected"
 proof! {
     #[cfg_attr(kani, kani::stub(alloc::fmt::format, crate::stubs::fmt_format))]
-    fn c12_abi_tag_simple_heads() {
-        heads(0xc0, 0xf8, 1, N);
-        heads(0xfc, 0xff, 1, N);
+    fn c12_abi_uint_immediate() { l1_at(0x00, 1); l1_at(0x00, 2); l1_at(0x17, 1); l1_at(0x17, 2); reach!(); }
+}
+
+//@ also=C13 tier=quick timeout=1800 mem=10 bits=72 unwind=12 unwindset="memcmp=12;from_utf8=12;run_utf8_validation=12" fns=echo_wasm_abi::canonical::decode_value,dec_value,read_len,read_uint,echo_wasm_abi::canonical::encode_value,enc_int,write_major
+//@ bounds="head 0x18 with 0, 1 and 2 following bytes (all values)"
+//@ desc="ABI CBOR: 1-byte argument: values <= 23 are non-minimal and rejected, short and trailing input rejected, the rest re-encode to themselves"
+proof! {
+    #[cfg_attr(kani, kani::stub(alloc::fmt::format, crate::stubs::fmt_format))]
+    fn c12_abi_uint_w1() { l1_at(0x18, 1); l1_at(0x18, 2); l1_at(0x18, 3); reach!(); }
+}
+
+//@ also=C13 tier=quick timeout=1800 mem=10 bits=72 unwind=12 unwindset="memcmp=12;from_utf8=12;run_utf8_validation=12" fns=echo_wasm_abi::canonical::decode_value,dec_value,read_len,read_uint,echo_wasm_abi::canonical::encode_value,enc_int,write_major
+//@ bounds="head 0x19 with 1, 2 and 3 following bytes (all values)"
+//@ desc="ABI CBOR: 2-byte argument: values <= 0xff rejected as non-minimal; accepted => canonical"
+proof! {
+    #[cfg_attr(kani, kani::stub(alloc::fmt::format, crate::stubs::fmt_format))]
+    fn c12_abi_uint_w2() { l1_at(0x19, 2); l1_at(0x19, 3); l1_at(0x19, 4); reach!(); }
+}
+
+//@ also=C13 tier=quick timeout=1800 mem=10 bits=72 unwind=12 unwindset="memcmp=12;from_utf8=12;run_utf8_validation=12" fns=echo_wasm_abi::canonical::decode_value,dec_value,read_len,read_uint,echo_wasm_abi::canonical::encode_value,enc_int,write_major
+//@ bounds="head 0x1a with 3, 4 and 5 following bytes (all values)"
+//@ desc="ABI CBOR: 4-byte argument: values <= 0xffff rejected; accepted => canonical"
+proof! {
+    #[cfg_attr(kani, kani::stub(alloc::fmt::format, crate::stubs::fmt_format))]
+    fn c12_abi_uint_w4() { l1_at(0x1a, 4); l1_at(0x1a, 5); l1_at(0x1a, 6); reach!(); }
+}
+
+//@ also=C13 tier=quick timeout=1800 mem=10 bits=72 unwind=12 unwindset="memcmp=12;from_utf8=12;run_utf8_validation=12" fns=echo_wasm_abi::canonical::decode_value,dec_value,read_len,read_uint,echo_wasm_abi::canonical::encode_value,enc_int,write_major
+//@ bounds="head 0x1b with 7, 8 and 9 following bytes (all values)"
+//@ desc="ABI CBOR: 8-byte argument: values <= 0xffffffff rejected; accepted => canonical"
+proof! {
+    #[cfg_attr(kani, kani::stub(alloc::fmt::format, crate::stubs::fmt_format))]
+    fn c12_abi_uint_w8() { l1_at(0x1b, 8); l1_at(0x1b, 9); l1_at(0x1b, 10); reach!(); }
+}
+
+//@ also=C13 tier=quick timeout=1800 mem=10 bits=72 unwind=12 unwindset="memcmp=12;from_utf8=12;run_utf8_validation=12" fns=echo_wasm_abi::canonical::decode_value,dec_value,read_len,read_uint,echo_wasm_abi::canonical::encode_value,enc_int,write_major
+//@ bounds="heads 0x1c..0x1f (reserved / indefinite additional info) with one following byte"
+//@ desc="ABI CBOR: reserved and indefinite-length heads are rejected"
+proof! {
+    #[cfg_attr(kani, kani::stub(alloc::fmt::format, crate::stubs::fmt_format))]
+    fn c12_abi_uint_reserved() { l1_at(0x1c, 2); l1_at(0x1d, 2); l1_at(0x1e, 2); l1_at(0x1f, 2); reach!(); }
+}
+
+//@ also=C13 tier=quick timeout=1800 mem=10 bits=72 unwind=12 unwindset="memcmp=12;from_utf8=12;run_utf8_validation=12" fns=echo_wasm_abi::canonical::decode_value,dec_value,read_len,read_uint,echo_wasm_abi::canonical::encode_value,enc_int,write_major
+//@ bounds="negative immediates and head 0x38 (all values of the argument byte)"
+//@ desc="ABI CBOR: negative ints: immediates one byte, 1-byte argument minimality, trailing byte rejected"
+proof! {
+    #[cfg_attr(kani, kani::stub(alloc::fmt::format, crate::stubs::fmt_format))]
+    fn c12_abi_nint_small() { l1_at(0x20, 1); l1_at(0x37, 1); l1_at(0x38, 2); l1_at(0x38, 3); reach!(); }
+}
+
+//@ also=C13 tier=quick timeout=1800 mem=10 bits=72 unwind=12 unwindset="memcmp=12;from_utf8=12;run_utf8_validation=12" fns=echo_wasm_abi::canonical::decode_value,dec_value,read_len,read_uint,echo_wasm_abi::canonical::encode_value,enc_int,write_major
+//@ bounds="head 0x3b with 8 and 9 following bytes (all values)"
+//@ desc="ABI CBOR: negative 8-byte argument: -1 - n computed without overflow; out-of-range magnitudes answered with a typed error; accepted => canonical"
+proof! {
+    #[cfg_attr(kani, kani::stub(alloc::fmt::format, crate::stubs::fmt_format))]
+    fn c12_abi_nint_w8() { l1_at(0x3b, 9); l1_at(0x3b, 10); reach!(); }
+}
+
+//@ also=C13 tier=quick timeout=1800 mem=10 bits=72 unwind=12 unwindset="memcmp=12;from_utf8=12;run_utf8_validation=12" fns=echo_wasm_abi::canonical::decode_value,dec_value,read_len,read_uint,echo_wasm_abi::canonical::encode_value,enc_int,write_major
+//@ bounds="simple-value heads false/true/null (exact, null also with a trailing byte), undefined, 1-byte simple, simple 0 and break"
+//@ desc="ABI CBOR: false/true/null accepted as exactly one byte and re-encode to themselves; every other simple value is rejected"
+proof! {
+    #[cfg_attr(kani, kani::stub(alloc::fmt::format, crate::stubs::fmt_format))]
+    fn c12_abi_simple() { l1_at(0xf4, 1); l1_at(0xf5, 1); l1_at(0xf6, 1); l1_at(0xf6, 2); l1_at(0xf7, 1); l1_at(0xf8, 2); l1_at(0xe0, 1); l1_at(0xff, 1); reach!(); }
+}
+
+//@ also=C13 tier=quick timeout=1800 mem=10 bits=72 unwind=12 unwindset="memcmp=12;from_utf8=12;run_utf8_validation=12" fns=echo_wasm_abi::canonical::decode_value,dec_value,read_len,read_uint,echo_wasm_abi::canonical::encode_value,enc_int,write_major
+//@ bounds="tag heads 0xc0, 0xc1, 0xd8, 0xdb followed by symbolic bytes"
+//@ desc="ABI CBOR: tagged items are rejected whatever follows"
+proof! {
+    #[cfg_attr(kani, kani::stub(alloc::fmt::format, crate::stubs::fmt_format))]
+    fn c12_abi_tags() { l1_at(0xc0, 2); l1_at(0xc1, 2); l1_at(0xd8, 3); l1_at(0xdb, 10); reach!(); }
+}
+
+//@ also=C13 tier=quick timeout=1800 mem=10 bits=72 unwind=12 unwindset="memcmp=12;from_utf8=12;run_utf8_validation=12" fns=echo_wasm_abi::canonical::decode_value,dec_value,read_len,read_uint,echo_wasm_abi::canonical::encode_value,enc_int,write_major
+//@ bounds="byte-string heads 0x40..0x42 with short, exact and trailing input; payload symbolic"
+//@ desc="ABI CBOR: byte strings: declared length checked against the remaining input; accepted => canonical"
+proof! {
+    #[cfg_attr(kani, kani::stub(alloc::fmt::format, crate::stubs::fmt_format))]
+    fn c12_abi_bytes_small() { l1_at(0x40, 1); l1_at(0x40, 2); l1_at(0x41, 1); l1_at(0x41, 2); l1_at(0x41, 3); l1_at(0x42, 3); reach!(); }
+}
+
+//@ also=C13 tier=quick timeout=1800 mem=10 bits=72 unwind=12 unwindset="memcmp=12;from_utf8=12;run_utf8_validation=12" fns=echo_wasm_abi::canonical::decode_value,dec_value,read_len,read_uint,echo_wasm_abi::canonical::encode_value,enc_int,write_major
+//@ bounds="byte-string head 0x58 (1-byte length) with 0..2 following bytes"
+//@ desc="ABI CBOR: a 1-byte length <= 23 is non-minimal, a larger one exceeds the input: both rejected without allocating the declared length"
+proof! {
+    #[cfg_attr(kani, kani::stub(alloc::fmt::format, crate::stubs::fmt_format))]
+    fn c12_abi_bytes_w1() { l1_at(0x58, 1); l1_at(0x58, 2); l1_at(0x58, 3); reach!(); }
+}
+
+//@ also=C13 tier=off timeout=1800 mem=10 bits=72 unwind=12 unwindset="memcmp=12;from_utf8=12;run_utf8_validation=12" fns=echo_wasm_abi::canonical::decode_value,dec_value,read_len,read_uint,echo_wasm_abi::canonical::encode_value,enc_int,write_major
+//@ bounds="text heads 0x60..0x62 with symbolic payload bytes"
+//@ desc="ABI CBOR: text strings: invalid UTF-8 rejected, valid text re-encodes to itself"
+proof! {
+    #[cfg_attr(kani, kani::stub(alloc::fmt::format, crate::stubs::fmt_format))]
+    fn c12_abi_text_small() { l1_at(0x60, 1); l1_at(0x61, 2); l1_at(0x62, 3); l1_at(0x61, 3); reach!(); }
+}
+
+//@ also=C13 tier=quick timeout=900 mem=10 bits=11 unwind=12 unwindset="memcmp=12" fns=echo_wasm_abi::canonical::decode_value,dec_value,read_f,is_exact_int,half::f16::to_f64
+//@ bounds="the 3-byte strings f9 xx yy whose half-precision pattern is a NaN (exponent all ones, mantissa != 0: 2046 patterns)"
+//@ desc="ABI CBOR: NaN has exactly one accepted encoding - the decoder accepts a half-precision NaN only as f9 7e 00, the bytes the encoder emits for every NaN (enc_float writes f16::NAN); any other NaN payload or sign must be rejected, not normalised"
+proof! {
+    #[cfg_attr(kani, kani::stub(alloc::fmt::format, crate::stubs::fmt_format))]
+    #[cfg_attr(kani, kani::stub(half::binary16::arch::f16_to_f64, half::binary16::arch::f16_to_f64_fallback))]
+    fn c12_abi_f16_nan_single_encoding() {
+        let sign: bool = kani::any();
+        let mant: u16 = kani::any();
+        kani::assume(mant >= 1 && mant < 1024);
+        let bits: u16 = ((sign as u16) << 15) | 0x7c00 | mant;
+        let buf = [0xf9u8, (bits >> 8) as u8, bits as u8];
+        match decode_value(&buf) {
+            Ok(v) => { core::mem::forget(v); assert!(bits == 0x7e00, "ABI CBOR: non-canonical f16 NaN accepted (it re-encodes as f9 7e 00)"); }
+            Err(e) => core::mem::forget(e),
+        }
         reach!();
     }
 }
 
-//@ also=C13 tier=quick timeout=1800 mem=12 bits=24 unwind=12 unwindset="memcmp=12" fns=echo_wasm_abi::canonical::dec_value,read_f,is_exact_int,enc_float,write_half,half::f16::to_f64,half::f16::from_f64
-//@ bounds="every byte string of length 1..=4 with head 0xf9 (all 2^16 half-precision patterns, short and trailing input)"
-//@ desc="ABI f16: accepted => re-encodes to exactly the same 3 bytes (integral values must have been ints; NaN has one encoding)"
+//@ also=C13 tier=thorough timeout=3600 mem=28 bits=11 unwind=12 unwindset="memcmp=12" fns=echo_wasm_abi::canonical::dec_value,read_f,is_exact_int,enc_float,write_half,half::f16::to_f64
+//@ bounds="the 3-byte strings f9 xx yy whose half-precision exponent field is all ones (both infinities and every NaN payload: 2^11 patterns)"
+//@ desc="ABI CBOR: f16 infinities and NaN - accepted => re-encodes to exactly the same 3 bytes, i.e. NaN has exactly one accepted encoding (f9 7e 00)"
 proof! {
     #[cfg_attr(kani, kani::stub(alloc::fmt::format, crate::stubs::fmt_format))]
-    fn c12_abi_f16() { heads(0xf9, 0xf9, 1, 4); reach!(); }
+    #[cfg_attr(kani, kani::stub(half::binary16::arch::f16_to_f64, half::binary16::arch::f16_to_f64_fallback))]
+    #[cfg_attr(kani, kani::stub(half::binary16::arch::f64_to_f16, half::binary16::arch::f64_to_f16_fallback))]
+    fn c12_abi_f16_nan_inf() {
+        let sign: bool = kani::any();
+        let mant: u16 = kani::any();
+        kani::assume(mant < 1024);
+        let bits: u16 = ((sign as u16) << 15) | 0x7c00 | mant;
+        let mut buf = [0u8; N];
+        buf[0] = 0xf9;
+        buf[1] = (bits >> 8) as u8;
+        buf[2] = bits as u8;
+        l1_float(&buf, 3);
+        reach!();
+    }
+}
+
+//@ also=C13 tier=thorough timeout=3600 mem=28 bits=24 unwind=12 unwindset="memcmp=12" fns=echo_wasm_abi::canonical::dec_value,read_f,is_exact_int,enc_float,write_half,half::f16::to_f64,half::f16::from_f64
+//@ bounds="head 0xf9 with exactly 2 following bytes (all 2^16 half-precision patterns)"
+//@ desc="ABI CBOR: f16 accepted => re-encodes to exactly the same 3 bytes (integral values must have been ints; NaN has one encoding)"
+proof! {
+    #[cfg_attr(kani, kani::stub(alloc::fmt::format, crate::stubs::fmt_format))]
+    #[cfg_attr(kani, kani::stub(half::binary16::arch::f16_to_f64, half::binary16::arch::f16_to_f64_fallback))]
+    #[cfg_attr(kani, kani::stub(half::binary16::arch::f64_to_f16, half::binary16::arch::f64_to_f16_fallback))]
+    fn c12_abi_f16() { let mut buf: [u8; N] = kani::any(); buf[0] = 0xf9; l1_float(&buf, 3); reach!(); }
 }
 
 //@ also=C13 tier=thorough timeout=3600 mem=14 bits=40 unwind=12 unwindset="memcmp=12" fns=echo_wasm_abi::canonical::dec_value,read_f,is_exact_int,can_fit_f16,enc_float,write_f32
-//@ bounds="every byte string of length 1..=6 with head 0xfa (all 2^32 single-precision patterns)"
-//@ desc="ABI f32: accepted => canonical (values that fit f16 or are integral are rejected, the rest re-encode as the same 5 bytes)"
+//@ bounds="head 0xfa with 4 and 5 following bytes (all 2^32 single-precision patterns)"
+//@ desc="ABI CBOR: f32 accepted => canonical (values that fit f16 or are integral are rejected, the rest re-encode as the same 5 bytes)"
 proof! {
     #[cfg_attr(kani, kani::stub(alloc::fmt::format, crate::stubs::fmt_format))]
-    fn c12_abi_f32() { heads(0xfa, 0xfa, 1, 6); reach!(); }
+    #[cfg_attr(kani, kani::stub(half::binary16::arch::f16_to_f64, half::binary16::arch::f16_to_f64_fallback))]
+    #[cfg_attr(kani, kani::stub(half::binary16::arch::f64_to_f16, half::binary16::arch::f64_to_f16_fallback))]
+    fn c12_abi_f32() { let mut buf: [u8; N] = kani::any(); buf[0] = 0xfa; l1_float(&buf, 5); reach!(); }
 }
 
-//@ also=C13 tier=quick timeout=1800 mem=12 bits=80 unwind=12 unwindset="c12_abi::heads=34;memcmp=12;from_utf8=12;run_utf8_validation=12" fns=echo_wasm_abi::canonical::dec_value,read_len,enc_bytes
-//@ bounds="every byte string of length 1..=10 whose first byte is a byte-string head (0x40..=0x5f); payload symbolic"
-//@ desc="ABI byte strings: declared length checked against the remaining input; accepted => canonical"
-proof! {
-    #[cfg_attr(kani, kani::stub(alloc::fmt::format, crate::stubs::fmt_format))]
-    fn c12_abi_bytes_heads() { heads(0x40, 0x5f, 1, N); reach!(); }
-}
-
-/// Runs `l1` on `[h0, args.., ]` where the total length is the *concrete* `len`.
+/// `[h0, args..]` of *concrete* total length `len`: the decoder must answer with an error
+/// (nothing of the declared count is present) and must not panic or size an allocation by it.
 #[inline(always)]
 fn fixed(h0: u8, len: usize) {
     let mut buf: [u8; N] = kani::any();
     buf[0] = h0;
-    l1(&buf, len);
+    match decode_value(&buf[..len]) {
+        Ok(v) => { core::mem::forget(v); assert!(false, "ABI CBOR: container with a declared count but no elements accepted"); }
+        Err(e) => core::mem::forget(e),
+    }
 }
 
 //@ also=C12 tier=quick timeout=1800 mem=12 bits=72 unwind=12 unwindset="memcmp=12" fns=echo_wasm_abi::canonical::dec_value,read_len,read_uint
@@ -119,31 +291,41 @@ proof! {
     }
 }
 
-const ELEM_HEADS: [u8; 20] = [0x00, 0x17, 0x18, 0x19, 0x1b, 0x1c, 0x1f, 0x20, 0x38, 0x3b, 0x40, 0x41, 0x60, 0x61, 0x80, 0xa0, 0xc0, 0xf4, 0xf6, 0xf7];
+/// One-element array `81 <elem head> ..` of concrete total length.
+#[inline(always)]
+fn arr1(elem: u8, len: usize) {
+    let mut buf: [u8; N] = kani::any();
+    buf[0] = 0x81;
+    buf[1] = elem;
+    l1_array1(&buf, len);
+}
 
-//@ also=C13 tier=quick timeout=2400 mem=14 bits=64 unwind=22 unwindset="memcmp=12;from_utf8=12;run_utf8_validation=12" fns=echo_wasm_abi::canonical::dec_value,enc_value,enc_len
-//@ bounds="one-element arrays (head 0x81) whose element head ranges over 20 representative heads of every major type (concrete loop); element argument/payload bytes symbolic; total length 2..=10 symbolic"
-//@ desc="ABI arrays: accepted => canonical, element errors propagate, trailing bytes rejected"
+//@ also=C13 tier=quick timeout=2400 mem=12 bits=64 unwind=12 unwindset="memcmp=12" fns=echo_wasm_abi::canonical::dec_value,enc_value,enc_len
+//@ bounds="one-element arrays 81 00, 81 18 xx, 81 f6, 81 f6 + trailing byte, 81 80 (nested empty array), 81 alone (missing element)"
+//@ desc="ABI CBOR arrays: accepted => canonical; element errors (non-minimal int) propagate; trailing byte and missing element rejected"
 proof! {
     #[cfg_attr(kani, kani::stub(alloc::fmt::format, crate::stubs::fmt_format))]
     fn c12_abi_array_of_one() {
-        let mut buf: [u8; N] = kani::any();
-        let len: usize = kani::any();
-        kani::assume(len >= 2 && len <= N);
-        buf[0] = 0x81;
-        let mut k = 0;
-        while k < 20 {
-            buf[1] = ELEM_HEADS[k];
-            l1(&buf, len);
-            k += 1;
-        }
+        arr1(0x00, 2); arr1(0x18, 3); arr1(0xf6, 2); arr1(0xf6, 3); arr1(0x80, 2); arr1(0x00, 1);
+        reach!();
+    }
+}
+
+//@ also=C13 tier=off timeout=3600 mem=14 bits=64 unwind=12 unwindset="memcmp=12;from_utf8=12;run_utf8_validation=12" fns=echo_wasm_abi::canonical::dec_value,enc_value,enc_len
+//@ bounds="one-element arrays over element heads 19, 1b, 20, 38, 40, 41, 60, 61, a0, c0, f4, f7, f9 at their exact length"
+//@ desc="ABI CBOR arrays (more element kinds): accepted => canonical"
+proof! {
+    #[cfg_attr(kani, kani::stub(alloc::fmt::format, crate::stubs::fmt_format))]
+    fn c12_abi_array_of_one_more() {
+        arr1(0x19, 4); arr1(0x1b, 10); arr1(0x20, 2); arr1(0x38, 3); arr1(0x40, 2); arr1(0x41, 3); arr1(0x60, 2); arr1(0x61, 3);
+        arr1(0xa0, 2); arr1(0xc0, 3); arr1(0xf4, 2); arr1(0xf7, 2); arr1(0xf9, 4);
         reach!();
     }
 }
 
 //@ also=C13 tier=quick timeout=2400 mem=14 bits=24 unwind=8 unwindset="memcmp=12;insertion_sort=4;insert_tail=4" fns=echo_wasm_abi::canonical::dec_value,enc_value
 //@ bounds="two-entry maps a2 18 x f6 18 y f6 with symbolic key bytes x, y (all 2^16 pairs), and the same with a trailing byte"
-//@ desc="ABI maps: accepted => keys strictly ascending by encoded bytes (duplicates and descending order rejected, not normalised) and re-encodes to itself"
+//@ desc="ABI maps: accepted => keys strictly ascending by encoded bytes (duplicates, descending order and non-minimal keys rejected, not normalised)"
 proof! {
     #[cfg_attr(kani, kani::stub(alloc::fmt::format, crate::stubs::fmt_format))]
     fn c12_abi_map_key_order() {
@@ -154,7 +336,31 @@ proof! {
             assert!(len == 7 && x >= 24 && y >= 24 && x < y, "ABI CBOR: map with unsorted, duplicate or non-minimal keys accepted");
             core::mem::forget(v);
         }
-        l1(&buf, 7);
         reach!();
     }
+}
+
+//@ tier=off timeout=60 bits=0 fns=echo_wasm_abi::canonical::dec_value
+//@ desc="native-only reproduction of the recorded finding F3c (never run under Kani): 2^20 nested one-element arrays overflow the stack of decode_value, which has no nesting limit"
+proof! {
+    fn c13_native_abi_deep_nesting() {
+        let mut input = vec![0x81u8; 1 << 20];
+        input.push(0x00);
+        let r = decode_value(&input);
+        core::mem::forget(r);
+    }
+}
+
+//@ tier=off timeout=900 mem=10 bits=16 unwind=12 unwindset="memcmp=12" fns=probe
+//@ desc="probe exact"
+proof! {
+    #[cfg_attr(kani, kani::stub(alloc::fmt::format, crate::stubs::fmt_format))]
+    fn c12_abi_probe_exact() { l1_at(0x19, 3); reach!(); }
+}
+
+//@ tier=off timeout=900 mem=10 bits=24 unwind=12 unwindset="memcmp=12" fns=probe
+//@ desc="probe trailing"
+proof! {
+    #[cfg_attr(kani, kani::stub(alloc::fmt::format, crate::stubs::fmt_format))]
+    fn c12_abi_probe_trailing() { l1_at(0x19, 4); reach!(); }
 }
